@@ -19,6 +19,28 @@ CHECKS = {
    "TLA+ spec (Store.tla operational collapsing vs declarative fold) + TLC + replay/trace validation on the real collapsing stores", "6 (C05)"),
 }
 
+SK = "TLA+ spec (Sketch.tla) + TLC model checking + TLC-generated behaviours replayed on real sketches"
+CHECKS.update({
+ "C01": ("sketch", "TLC checks K_Rank/K_Ends/K_Monotone of Sketch.tla over every multiset of value tokens added one at a time; every generated history is replayed on real sketches (3 mapping kinds x alphas x dense/sparse/paginated x key embeddings at 1.0, the smallest and the largest indexable bins) and after every step each q=a/8 answer must be within alpha of a token holding the order statistic of rank floor or ceil of q(n-1) in the specification's bag.",
+   TRUST + " Values are bin-extreme float64 found by bisection on the real Index(); numeric predicate |y-x| <= alpha|x| + 2e-12|x| (abstraction relation R). q on the dyadic grid a/8.", SK, "6 (C01)"),
+ "C02": ("sketch", "TLC checks K_Merge/K_Content/K_OnlyReceiverChanges for every interleaving of Add/Merge/Clear over 3 sketches; each generated history is replayed on real sketches (all mixes of non-collapsing store kinds, mappings, alphas; both variants) and after every merge the receiver must answer bit-for-bit like a single fresh sketch fed the multiset the specification attributes to it, while every non-receiver keeps its snapshot.",
+   TRUST + " The union multiset is the specification's ghost bag; the comparison is real sketch vs real sketch.", SK + " (twin sketch fed the specification's bag)", "6 (C02)"),
+ "C10": ("sketch", "TLC checks X_Stats (exact count/min/max are functions of the absorbed multiset) over histories of the exact variant (adds incl. weight 0 and refused values, merge, copy, clear, reweight, encode/decode); generated histories are replayed on real DDSketchWithExactSummaryStatistics: count/min/max == the specification's, sum within 16*2^-53*sum|v*w| of the exact rational sum (math/big), quantiles == plain answers clamped to [min,max].",
+   TRUST + " Abstraction relation R for token values; sums near MaxFloat64 (overflow) not compared; ChangeMapping's rescaling is under C17.", SK, "6 (C10)"),
+ "C11": ("sketch", "TLC checks the weighted K_Rank (answer bin holds a token whose cumulative-weight interval is within one unit of q(W-1)) for all weighted multisets with weights 1/4..3 units and totals from 1/4 unit (weighted adds and Reweight); generated histories are replayed on real sketches and every q=a/8 answer must be within alpha of an allowed token and between the reported min and max.",
+   TRUST + " Abstraction relation R; weights multiples of 1/4 up to 2^10 units.", SK, "6 (C11)"),
+ "C12": ("sketch", "TLC checks K_Content/K_Ends/K_Monotone incl. collapsing store kinds; generated histories (adds of all sign mixes, merge, copy, clear, decode) are replayed on real sketches of all store kinds and after every step count/emptiness/zero weight, min/max (within alpha of the specification's extreme; clamped bin for collapsing stores), monotonicity and [min,max] containment of q=a/8 answers, batch==single queries, ForEach (one callback per bin, positive weights, total, early stop) and GetSum are checked.",
+   TRUST + " Abstraction relation R; sums near MaxFloat64 not compared.", SK, "6 (C12)"),
+ "C13": ("sketch", "TLC checks the action property K_Refused over value tokens {NaN, +-Inf, +-MaxFloat64, beyond +-MaxIndexableValue, +-MaxIndexableValue (accepted), -0, sub-minimum}, weights {negative,0,positive}, factors {negative,0,1,positive} and merges across different mappings; generated histories are replayed on both sketch variants: documented sentinel errors, snapshots unchanged by refused calls, accepted tokens accepted, invalid q and empty-sketch queries refused in every reached state.",
+   TRUST + " NaN weights/factors/constructor parameters are outside the contract.", SK, "6 (C13)"),
+ "C14": ("sketch", "TLC checks K_ReadOnly/K_OnlyReceiverChanges/K_Copy; each generated history (all operations interleaved with reads and copies, all store kinds, both variants) is executed on real sketches with full snapshots around every event: non-receivers keep their snapshot, a copy equals its original, and the run with reads ends bit-identical to the run without reads.",
+   TRUST + " Snapshot excludes the plain GetSum (iteration-order dependent rounding on sparse stores).", SK + " (real-vs-real snapshots; the spec names the receiver)", "6 (C14)"),
+ "C15": ("sketch", "TLC checks K_ClearIsInit/S_ClearIsInit; each generated history with Clear anywhere is executed twice on real objects, as is and with every Clear replaced by constructing a brand-new object; after every step all slots must answer bit-identically in both runs (all store kinds incl. collapsing, both variants, cleared objects as decode targets and merge operands).",
+   TRUST, SK + " (real-vs-real: cleared object vs brand-new twin)", "6 (C15)"),
+ "C16": ("sketch", "TLC checks K_Reweight/S_Reweight; on real sketches of all store kinds (incl. collapsing, paginated stores with buffered and paged indexes) the snapshot just before each Reweight(f) is compared with the one just after: every bin, zero weight, count (and exact count) scale exactly by f, exact min/max unchanged, exact sum within rounding; finally the sketch equals a fresh one fed the specification's scaled bag.",
+   TRUST + " Factors 1/4,1/2,2,3,1; dyadic weights.", SK, "6 (C16)"),
+})
+
 NA = {
  "C03": "pure float64 numerics of one function over ~2^62 inputs; TLC has no floating point and 32-bit integers, so a TLA+ model would only be a test enumerator with the oracle in Go (DESIGN.md section 7)",
 }
@@ -52,6 +74,8 @@ m = {
    "add_only": True,
  },
  "engines": [
+   {"name": "sketch", "path": "spec/Sketch.tla spec/StoreOps.tla spec/MC_Sketch.tla spec/Gen_Sketch.tla harness/cmd/vcheck/sketch*.go harness/cmd/vcheck/rel.go",
+    "serves_properties": ["C01", "C02", "C10", "C11", "C12", "C13", "C14", "C15", "C16"], "kind_free_text": "TLA+ specification of DDSketch / DDSketchWithExactSummaryStatistics over value tokens; TLC model checking; behaviours replayed on real sketches"},
    {"name": "store", "path": "spec/Store.tla spec/IndexMap.tla spec/MC_Store.tla spec/Gen_Store.tla spec/Trace_Store.tla harness/cmd/vcheck/store*.go",
     "serves_properties": ["C04", "C05"], "kind_free_text": "TLA+ specification of the bin stores; TLC model checking; behaviours replayed on real stores; recorded traces validated by TLC"},
  ],
